@@ -664,7 +664,7 @@ func Replay(t *testing.T, property string, rs map[string]Replayer) {
 // failure needs company, which the error text says).
 func Parallel[C any](t *testing.T, property, check string, quickBatches, thoroughBatches, batch int, gen func(*rapid.T) C, run func(C) error) {
 	t.Helper()
-	rec := New(property, check, fmt.Sprintf("batches of %d rapid-generated cases of this property's main check, each first run alone, then 24 runs of each spread over 3 x GOMAXPROCS goroutines at once; "+
+	rec := New(property, check, fmt.Sprintf("batches of %d rapid-generated cases of this property's main check, each first run alone, then 24 runs of each spread over 3 x GOMAXPROCS goroutines at once (half of them with the crowd squeezed onto two processors, so that calls are preempted in mid-flight); "+
 		"oracle: a case that passes alone passes next to the others; non-trivial = every case of a batch that ran concurrently", batch))
 	Rapid(t, check, quickBatches, thoroughBatches, func(t *rapid.T) {
 		cases := rapid.SliceOfN(rapid.Custom(gen), batch, batch).Draw(t, "cases")
@@ -673,36 +673,47 @@ func Parallel[C any](t *testing.T, property, check string, quickBatches, thoroug
 				t.Skip("a case fails alone: the main check's business")
 			}
 		}
-		// more goroutines than processors, so that goroutines are preempted in the middle of a call
-		// and another one continues on the same processor (per-processor caches of sync.Pool)
-		workers := 3 * runtime.GOMAXPROCS(0)
-		if workers < 8 {
-			workers = 8
-		}
-		total := 24 * len(cases) // runs in all, spread over the workers
-		per := (total + workers - 1) / workers
-		var wg sync.WaitGroup
+		// Two phases. (1) All processors, 3 goroutines each: truly simultaneous calls (a shared template
+		// slice, an unsynchronised table). (2) Two processors for the same crowd: every goroutine is
+		// preempted in mid-call again and again and another continues on the same processor - that is
+		// what it takes to meet a sync.Pool entry that was given back while still in use (the pool keeps
+		// a private slot per processor).
 		var mu sync.Mutex
 		var firstErr error
 		var firstCase C
-		for w := 0; w < workers; w++ {
-			wg.Add(1)
-			go func(w int) {
-				defer wg.Done()
-				for i := 0; i < per; i++ {
-					c := cases[(w*per+i)%len(cases)]
-					if err := Try(func() error { return run(c) }); err != nil {
-						mu.Lock()
-						if firstErr == nil {
-							firstErr, firstCase = err, c
+		phase := func(workers, total int) {
+			per := (total + workers - 1) / workers
+			var wg sync.WaitGroup
+			for w := 0; w < workers; w++ {
+				wg.Add(1)
+				go func(w int) {
+					defer wg.Done()
+					for i := 0; i < per; i++ {
+						c := cases[(w*per+i)%len(cases)]
+						if err := Try(func() error { return run(c) }); err != nil {
+							mu.Lock()
+							if firstErr == nil {
+								firstErr, firstCase = err, c
+							}
+							mu.Unlock()
+							return
 						}
-						mu.Unlock()
-						return
 					}
-				}
-			}(w)
+				}(w)
+			}
+			wg.Wait()
 		}
-		wg.Wait()
+		procs := runtime.GOMAXPROCS(0)
+		workers := 3 * procs
+		if workers < 8 {
+			workers = 8
+		}
+		phase(workers, 12*len(cases))
+		if firstErr == nil && procs > 2 {
+			runtime.GOMAXPROCS(2)
+			phase(workers, 12*len(cases))
+			runtime.GOMAXPROCS(procs)
+		}
 		for _, c := range cases {
 			rec.Case(true, Hash(c), nil, func() any { return c })
 		}
